@@ -35,6 +35,8 @@ def run(ctx):
             A = A + np.diag(np.ones(len(v) - 1), 1)          # make it non-normal / possibly defective
         n = len(v)
         m = int(rng.integers(1, n + 4))
+        if fam == 'near_eig' and rng.random() < 0.7:
+            m = int(rng.choice([12, 25, 60]))          # the DMRG / TDVP regime: iteration count far above the Krylov dimension
         if kind == 'eigh':
             rec = krylovgen.record_eigh(ptn, A, v, m)
             if rng.random() < 0.3:
